@@ -37,6 +37,7 @@ WELCOME == <<"welcome">>
 FAILURE == <<"failure">>
 JUNK == <<"junk">>
 BIG == <<"big">>          \* longer than the 256-byte limit of recv_bytes
+EMPTY == <<"empty">>      \* a message of no bytes at all
 
 Init == /\ mode \in Modes /\ kl \in Keys /\ kc \in Keys
         /\ (mode = "hostile_client" => kl \notin HostileKeys)
@@ -132,7 +133,7 @@ C4 == /\ CRecv("C4")
 (* and -- by replay -- digests under the honest key for every challenge other than the     *)
 (* fresh ones of this connection (0 is a challenge of its own making).                     *)
 HonestKey == IF mode = "hostile_client" THEN kl ELSE kc
-CanSay == {WELCOME, FAILURE, JUNK, BIG}
+CanSay == {WELCOME, FAILURE, JUNK, BIG, EMPTY}
           \cup {Dig(k, c) : k \in HostileKeys, c \in 0..nchal}
           \cup {Dig(HonestKey, c) : c \in (0..nchal) \ {lchal, cchal}}
           \cup {Chal(c) : c \in 0..nchal}
